@@ -61,7 +61,7 @@ CURVES = {-7: 'p256', -35: 'p384'}
 ALTERATION_KINDS = ['pri-flags', 'pri-dest', 'pri-src', 'pri-rpt', 'pri-time', 'pri-seq', 'pri-lifetime', 'pri-crc-type',
                     'tgt-data', 'tgt-flags', 'tgt-type', 'tgt-num', 'tgt-crc-type', 'other-data', 'other-flags',
                     'sec-flags', 'sec-source', 'sec-scope', 'sec-addl-protected', 'res-tag', 'res-protected', 'res-kid',
-                    'wrong-key', 'no-key', 'bitflip', 'x5chain-flip', 'sec-scope-retype', 'sec-scope-drop']
+                    'wrong-key', 'no-key', 'bitflip', 'x5chain-flip', 'sec-scope-retype', 'sec-scope-drop', 'sig-malleate']
 
 
 @st.composite
@@ -89,7 +89,7 @@ def strategy(tier):
 
 def enumerate_cases(tier):
     # every catalogue alteration for each kind x target x scope
-    catalogue = [[k, i, i * 7] for k in ALTERATION_KINDS if k not in ('bitflip', 'x5chain-flip') for i in (0, 1, 2)]
+    catalogue = [[k, i, i * 7] for k in ALTERATION_KINDS if k not in ('bitflip', 'x5chain-flip', 'sig-malleate') for i in (0, 1, 2)]
     combos = list(itertools.product(('A', 'B'), ([5], [6, 7])[0:1] if tier == 'quick' else ([5], [6], [7]),
                                     (['payload'], ['ext'], ['payload', 'ext']), range(len(SCOPES))))
     for direction, algs, targets, scope in combos:
@@ -105,7 +105,7 @@ def enumerate_cases(tier):
                'bcrc': 0, 'sec_crc': 0, 'alterations': [], 'identity': identity}
     for alg, targets in itertools.product((-7,) if tier == 'quick' else (-7, -35), (['payload'], ['ext'], ['payload', 'ext'])):
         yield {'direction': 'S', 'alg': alg, 'targets': targets, 'scope': 0, 'addl': False, 'plen': 5, 'seed': 1, 'pcrc': 0,
-               'bcrc': 0, 'sec_crc': 0, 'alterations': catalogue + [['x5chain-flip', 0, pos] for pos in range(0, 440, 37)]}
+               'bcrc': 0, 'sec_crc': 0, 'alterations': catalogue + [['x5chain-flip', 0, pos] for pos in range(0, 440, 37)] + [['sig-malleate', 0, 0]]}
     # exhaustive single-bit flips of small CRC-less signed bundles, in chunks
     for direction in ('A', 'B', 'S'):
         base = {'direction': direction, 'alg': 5 if direction != 'S' else -7, 'targets': ['payload'], 'scope': 1 if direction == 'B' else 0, 'addl': False,
@@ -261,6 +261,24 @@ def execute(case):
         one_directional = False
         if kind == 'res-kid' and sign1:
             continue     # a Sign1 from this source carries no kid; adding one is not an alteration the property lists
+        if kind == 'sig-malleate':
+            # ECDSA: (r, n - s) is a different signature value over the same content.  The statement says that any
+            # change to the signature makes verification fail; an ECDSA verifier that accepts both values (as RFC 9053
+            # allows) cannot satisfy that, which is recorded as a known finding, not repaired (rejecting high-s values
+            # would refuse about half of the signatures other implementations produce)
+            if not sign1:
+                continue
+            mutated = bu.edit_asb(signed, 11, lambda asb: _malleate(asb, arg1 % len(target_nums), alg))
+            if mutated == signed:
+                continue
+            payload, fins, err, escapes = receive(r.encode(mutated), alg, kid=kid)
+            out.count('alterations_evaluated')
+            out.count('alteration:sig-malleate')
+            if payload is not None:
+                out.fail('ecdsa-signature-malleable', 'the signature value of a COSE_Sign1 BIB was changed from (r, s) to (r, n - s) and the '
+                         'BIB still verified: the bundle was delivered')
+            n_cov += 1
+            continue
         if kind == 'x5chain-flip':
             if not sign1:
                 continue
@@ -356,6 +374,20 @@ def execute(case):
     out.count('covered', n_cov)
     out.count('uncovered', n_unc)
     return out
+
+
+def _malleate(asb, target_index, alg):
+    ''' Replace the ECDSA signature (r || s) of a Sign1 result by (r || n - s). '''
+    from vlib import refcose as rc, cborpull as cb
+    order = {-7: 0xFFFFFFFF00000000FFFFFFFFFFFFFFFFBCE6FAADA7179E84F3B9CAC2FC632551,
+             -35: 0xFFFFFFFFFFFFFFFFFFFFFFFFFFFFFFFFFFFFFFFFFFFFFFFFC7634D81F4372DDF581A0DB248B0A77AECEC196ACCC52973}[alg]
+    rid, enc = asb['results'][target_index][0]
+    msg = rc._py(cb.parse(bytes(enc)))
+    sig = bytes(msg[-1])
+    half = len(sig) // 2
+    s_val = int.from_bytes(sig[half:], 'big')
+    msg[-1] = sig[:half] + ((order - s_val) % order).to_bytes(half, 'big')
+    asb['results'][target_index][0] = [rid, cb.enc(msg)]
 
 
 def _flip_x5chain(asb, position):
